@@ -69,6 +69,7 @@ size_t btcsim_probe_phases(char* out, size_t cap) __attribute__((weak));
 size_t btcsim_probe_hist(char* out, size_t cap) __attribute__((weak));
 size_t btcsim_probe_tce(char* out, size_t cap) __attribute__((weak));
 size_t btcsim_probe_next(char* out, size_t cap) __attribute__((weak));
+int btcsim_probe_light = 0;
 }
 
 #ifdef BTCSIM_ASAN
@@ -158,7 +159,8 @@ struct World {
     long urandom_short_after = -1;
     long readline_cap = 10000;
     bool fill_stack = true;
-    bool probe = true;
+    int probe = 1;              // 0 off, 1 full, 2 light (scripts reported by digest: sessions of thousands of commands)
+    int alarm_s = 30;
     int win_cols = 80, win_rows = 24;                 // what TIOCGWINSZ reports for a terminal end
     long stdin_delay_ms = 0;                          // simulated time at which the first byte of stdin becomes readable
     bool discard_stdout = false;                      // long sessions: stdout is counted, not recorded
@@ -467,7 +469,7 @@ bool parse_world() {
         case 'j': W.sigints[W.user.size()] = 1; break;
         case 'w': { int c, r; if (sscanf(p.c_str(), "%d %d", &c, &r) == 2) { W.win_cols = c; W.win_rows = r; } break; }
         case 'b': { long pos; if (sscanf(p.c_str(), "%ld", &pos) == 1) W.tabs[W.user.size()].push_back(pos); break; }
-        case 'c': { long cap; int fs; int pr = 1; if (sscanf(p.c_str(), "%ld %d %d", &cap, &fs, &pr) >= 2) { W.readline_cap = cap; W.fill_stack = fs != 0; W.probe = pr != 0; } break; }
+        case 'c': { long cap; int fs; int pr = 1; int al = 30; if (sscanf(p.c_str(), "%ld %d %d %d", &cap, &fs, &pr, &al) >= 2) { W.readline_cap = cap; W.fill_stack = fs != 0; W.probe = pr; W.alarm_s = al > 0 ? al : 30; } break; }
         default: break;
         }
     }
@@ -490,7 +492,8 @@ int child_run() {
     for (auto& a : W.argv) av.push_back(strdup(a.c_str()));
     av.push_back(nullptr);
     optind = 1;
-    alarm(30);
+    alarm(W.alarm_s);
+    btcsim_probe_light = W.probe == 2;
 #ifndef BTCSIM_ASAN
     mallopt(M_PERTURB, 0xAA);
 #endif
